@@ -96,13 +96,49 @@ def search_cases(rng, tier, budget):
     return out
 
 
+def sibling(spec, meta):
+    """a second definition with the SAME names: derived parameters redefined (if any) and the state list
+    declared in reverse order.  Built in the same process right after the first model, it exposes state that
+    leaks between model instances (module-level caches keyed by strings, shared class attributes)."""
+    import copy
+    s2, m2 = copy.deepcopy(spec), copy.deepcopy(meta)
+    changed = False
+    if s2.get("derived"):
+        s2["derived"][0][1] = E.add(s2["derived"][0][1], E.num(1))
+        changed = True
+    st = s2["state"]
+    if "list" in st and len(st["list"]) >= 2:
+        st["list"] = list(reversed(st["list"]))
+        m2["states"] = gen.expand_decl([x if isinstance(x, str) else x[0] for x in st["list"]])
+        changed = True
+    return (s2, m2) if changed else (None, None)
+
+
 def run_case(case):
+    r = check_model(case)
+    if case.get("malformed") or r["mismatches"] or r["violations"] or not case.get("points"):
+        return r
+    s2, m2 = sibling(case["spec"], case["meta"])
+    if s2 is None:
+        return r
+    c2 = dict(case, spec=s2, meta=m2, points=case["points"][:1])
+    r2 = check_model(c2)
+    r["tags"].append("sibling_checked")
+    for v in r2["violations"]:
+        v = dict(v); v["what"] = "second model with the same names (built after the first): " + v["what"]
+        v["signature"] = "sibling:" + v.get("signature", "")
+        r["violations"].append(v)
+    for m_ in r2["mismatches"]:
+        r["mismatches"].append(dict(m_, what="sibling:" + m_["what"]))
+    if r2["violations"] or r2["mismatches"]:
+        r["sample"] = {"first": case["spec"], "second": s2}
+    return r
+
+
+def check_model(case):
     from fractions import Fraction
     spec, meta = case["spec"], case["meta"]
     tags, mism, viol = [], [], []
-    if case.get("backend") == "cython":
-        # few events only: each evaluator costs seconds of gcc
-        pass
     lr, model, perr, stage = build_both(spec, backend=case.get("backend", "lambda"))
     mism += compare_errors(lr, perr, stage)
     tags.append("malformed:%s" % case["malformed"] if case.get("malformed") else "wellformed")
